@@ -229,6 +229,7 @@ m("persist-star-revert2", "_external.py", '            name = f"{stem}*{dot}{suf
 m("relative-to-cwd-revert", "pytest_plugin.py", "                        try:\n                            name = file.filename.relative_to(Path.cwd())\n                        except ValueError:\n                            # pytest was started outside of the directory of the test file\n                            name = file.filename\n", "                        name = file.filename.relative_to(Path.cwd())\n", ["C18", "C04"], "revert: session started in another directory crashes at session end")
 m("undecided-update-whole-arg-revert", "_snapshot/undecided_value.py", "                        node=node,\n", "                        node=self._ast_node,\n", ["C05", "C10", "C18"], "revert: a never-compared snapshot is replaced as a whole by the code of one element")
 m("undecided-update-fstring-revert", "_snapshot/undecided_value.py", "                and not isinstance(node, ast.JoinedStr)\n", "", ["C10"], "revert: f-strings inside never-compared snapshots are replaced by update")
+m("executed-test-file-counts-revert", "pytest_plugin.py", "        state().files_with_snapshots.add(str(test_file))\n", "        pass\n", ["C13"], "revert: a test failing before its snapshot loses its external under trim")
 m("run-inline-external-import-only", "testing/_example.py", '                    if used_hasrepr(tree):\n                        required_imports.append("HasRepr")', '                    if used_hasrepr(tree) and used_externals(tree):\n                        required_imports.append("HasRepr")', ["C19"], "HasRepr import only added together with external")
 
 
